@@ -871,6 +871,11 @@ impl Session {
         // (lock order: buffer -> writer; nothing takes the buffer lock while holding the writer).
         let mut buf = self.buffer.lock().await;
 
+        // Nothing may be written (or buffered) once the session is closed
+        if self.is_closed() {
+            return Err(AnyTlsError::SessionClosed);
+        }
+
         // Check if buffering
         if self.buffering.load(std::sync::atomic::Ordering::Relaxed) {
             tracing::trace!(
